@@ -174,12 +174,14 @@ Init_Dates ==
   \* skel: one of the trash directories exists but holds nothing (the skeleton a put + purge leaves): it must stay as it is
   \* under --dry-run and after a negative answer
   /\ \E d1 \in DatePool, d2 \in (IF GenLevel >= 2 THEN DatePool ELSE {4, 7, NoDate}), d3 \in (IF GenLevel >= 2 THEN {1, 7, 10} ELSE {7}),
-        skel \in {"none", "t2:V1", "c:V1"}, wo \in BOOLEAN :
+        skel \in {"none", "t2:V1", "c:V1", "all"}, wo \in BOOLEAN :
+       \* skel = "all": no entry anywhere, only payloads without info (what a confirmation must still protect)
+       /\ (skel = "all" => wo /\ d1 = 7 /\ d3 = 7)
        /\ items = {i \in {[t |-> "home", o |-> 5, r |-> "R", d |-> "d", n |-> "a", date |-> d1],
                             [t |-> "t2:V1", o |-> 6, r |-> "V1", d |-> "d", n |-> "b", date |-> d2],
                             [t |-> "home", o |-> 7, r |-> "R", d |-> "top", n |-> "a", date |-> d3],
                             [t |-> "c:V1", o |-> 8, r |-> "V1", d |-> "top", n |-> "a", date |-> d1],
-                            [t |-> "c:R", o |-> 4, r |-> "R", d |-> "de", n |-> "b", date |-> d2]} : i.t # skel}
+                            [t |-> "c:R", o |-> 4, r |-> "R", d |-> "de", n |-> "b", date |-> d2]} : i.t # skel /\ skel # "all"}
        /\ (skel # "none" => d2 = 7)
        /\ orph = IF wo THEN {x \in {[t |-> "home", o |-> 9], [t |-> "t2:V1", o |-> 10]} : x.t # skel} ELSE {}
   /\ strays \in {{}, {[t |-> "home", id |-> 1, r |-> "R", d |-> "d", n |-> "b", date |-> 4]}}
